@@ -226,6 +226,8 @@ type Explorer struct {
 	out       map[uint64][]absEdge
 	terminals hashSet
 	Splits int // split steps: release transitions executed
+	// realized is the schedule the last RealizeExact call really executed (blockers and pulled-forward steps included)
+	realized []Trans
 }
 
 func queueKey(mode QueueMode, t Token) string {
@@ -855,6 +857,9 @@ func (x *Explorer) RealizeExact(tr []Trans, drain bool, after func(i int, t Tran
 	queues := map[string][]string{}
 	nextReq := 0
 	var heldBegin *WorldSnap
+	pulled := map[int]bool{} // trace positions whose step was executed earlier because a FIFO forced it
+	cur := 0
+	x.realized = nil
 	take := func(ctrl, id string) string {
 		item := ctrl + "|" + id
 		bestQ, bestPos := "", -1
@@ -884,8 +889,22 @@ func (x *Explorer) RealizeExact(tr []Trans, drain bool, after func(i int, t Tran
 			p := strings.SplitN(queues[bestQ][0], "|", 2)
 			bt := Trans{Kind: "step", Ctrl: p[0], ID: p[1], Src: bestQ}
 			res := w.Step(bt.Ctrl, bt.ID)
+			x.realized = append(x.realized, bt)
 			if res.Effects > 0 || res.Panic != "" {
-				return fmt.Sprintf("token %s in front of %s(%s) in %s is not a no-op: %v", bt.String(), ctrl, id, bestQ, res.Writes)
+				// the FIFO forces this effectful step first. If the trace takes the same step later, take it now
+				// instead (the abstraction ignores FIFO order between them); the run stays a real exact-queue
+				// execution, and the check at its end decides whether it still shows the violation.
+				later := -1
+				for j := cur + 1; j < len(tr); j++ {
+					if tr[j].Kind == "step" && tr[j].Ctrl == bt.Ctrl && tr[j].ID == bt.ID && !pulled[j] {
+						later = j
+						break
+					}
+				}
+				if later < 0 || res.Panic != "" {
+					return fmt.Sprintf("token %s in front of %s(%s) in %s is not a no-op: %v", bt.String(), ctrl, id, bestQ, res.Writes)
+				}
+				pulled[later] = true
 			}
 			queues = enqueue(QExact, dequeue(queues, bt), res.Tokens)
 		}
@@ -894,6 +913,10 @@ func (x *Explorer) RealizeExact(tr []Trans, drain bool, after func(i int, t Tran
 	}
 	for i, t := range tr {
 		var res *StepResult
+		cur = i
+		if pulled[i] {
+			continue
+		}
 		switch t.Kind {
 		case "step", "crash", "interleave":
 			if why := take(t.Ctrl, t.ID); why != "" {
@@ -972,6 +995,7 @@ func (x *Explorer) RealizeExact(tr []Trans, drain bool, after func(i int, t Tran
 				}
 			}
 		}
+		x.realized = append(x.realized, t)
 		if after != nil {
 			after(i, t, res)
 		}
